@@ -172,6 +172,20 @@ pub fn run(args: &Args) -> Report {
         let label = format!("bridged end with 150 kB ready at once | {}", cfg.describe());
         cases.push(Case { try_unbounded: false, max_k: 1, label, exec: Box::new(move |r| xfer::exec(&cfg, &or, r)) });
     }
+    // the same with 1.4 MB ready at once, read through a buffer of 12 345 octets: the bridge's frames then exceed the size
+    // a plain write may have by up to one buffer (it stops coalescing once the limit is reached); still one frame = one
+    // unit of credit = one acknowledged frame at the receiver, whose window is small and whose reader is slow
+    for (a, b) in [((2u32, 1u32), (2u32, 2u32)), ((1, 1), (3, 2))] {
+        let streams = vec![StreamSpec {
+            tag: 1,
+            opener: 0,
+            opener_plan: EndPlan::Bridged(1_500_000, vec![Op::W(1_400_000), Op::Shutdown, Op::ReadToEof(4096)]),
+            acceptor_plan: EndPlan::Seq(vec![Op::ReadToEof(300_000), Op::W(2), Op::Shutdown]),
+        }];
+        let cfg = XferCfg { a, b, cap: 0, streams, stream_buffer: 4, one_byte_frames: false, dgram_pingpong: 0, dgram_buffer: 4, drop_mux_when_writers_done: None, extra: xfer::XferExtra::NONE, horizon: 8000 };
+        let label = format!("bridged end with 1.4 MB ready at once, read through a buffer of 12 345 octets | {}", cfg.describe());
+        cases.push(Case { try_unbounded: false, max_k: 1, label, exec: Box::new(move |r| xfer::exec(&cfg, &or, r)) });
+    }
     // the smallest drivers: every interleaving modulo commutation of the two endpoints' steps (sleep sets)
     for (a, b) in if thorough { vec![((1u32, 1u32), (1u32, 1u32)), ((2, 2), (1, 1)), ((1, 2), (2, 1))] } else { vec![((1u32, 1u32), (1u32, 1u32)), ((2, 2), (1, 1))] } {
         let streams = vec![StreamSpec {
